@@ -73,13 +73,18 @@ def ofBe32 (a b c d : UInt8) : BitVec 32 :=
 def encodeMsg (p : Bytes) : Bytes :=
   Base64.encode (be32 (Crc32c.crc32c p) ++ p) ++ [10]
 
-def natDigits : Nat → Nat → Bytes
-  | 0, _ => []
-  | fuel + 1, n => if n < 10 then [UInt8.ofNat (48 + n)] else natDigits fuel (n / 10) ++ [UInt8.ofNat (48 + n % 10)]
+/-- decimal digits, most significant first (`acc` collects the less significant ones). -/
+def natDigitsAux : Nat → Nat → Bytes → Bytes
+  | 0, _, acc => acc
+  | fuel + 1, n, acc =>
+    if n < 10 then UInt8.ofNat (48 + n) :: acc
+    else natDigitsAux fuel (n / 10) (UInt8.ofNat (48 + n % 10) :: acc)
+
+def natDigits (n : Nat) : Bytes := natDigitsAux (n + 1) n []
 
 /-- decimal text of an integer (`strconv.FormatInt(h, 10)`). -/
 def intDigits (h : Int) : Bytes :=
-  if h < 0 then 45 :: natDigits (h.natAbs + 1) h.natAbs else natDigits (h.natAbs + 1) h.natAbs
+  if h < 0 then 45 :: natDigits h.natAbs else natDigits h.natAbs
 
 /-- `#{"h":"<h>"}` + newline. -/
 def encodeMeta (h : Int) : Bytes :=
@@ -172,5 +177,22 @@ def readLinesSkip (cfg : Cfg) : List Bytes → List Event × End
     | .metaErr => ([], .metaerr)
 
 def readAllSkip (cfg : Cfg) (bs : Bytes) : List Event × End := readLinesSkip cfg (completeLines bs)
+
+/-! ### vocabulary of the property statements -/
+
+/-- a height fits Go's `int64` (every `MetaMessage.Height` does) -/
+def InI64 (h : Int) : Prop := -9223372036854775808 ≤ h ∧ h ≤ 9223372036854775807
+
+/-- A payload the writer may have written and the reader must accept: non-empty
+(an amino sized encoding has at least its length byte), within the reader's
+limit, and decodable by amino. -/
+structure GoodPayload (cfg : Cfg) (p : Bytes) : Prop where
+  nonempty : p ≠ []
+  fits : (p.length : Int) ≤ cfg.maxSize
+  body : cfg.bodyOK p = true
+
+def GoodItem (cfg : Cfg) : Item → Prop
+  | .msg p => GoodPayload cfg p
+  | .mark h => InI64 h
 
 end GnoVerif.C38
